@@ -847,9 +847,15 @@ def solver_glue(ctx):
     yes, no = _ifelse(d, b[0], "isinstance(A, BlockedOperatorBase)")
     if len(b) != 1:
         d.fail(lu, "lu changed shape")
-    rb = _solve_branch(d, yes, "projections_from_grid_functions_list(b, A.dual_to_range_spaces)")
-    if rb != "grid_function_list_from_coefficients(sol, A.domain_spaces)":
+    import re as _re
+    m0 = _re.fullmatch(r"vec = projections_from_grid_functions_list\(b, A\.(\w+)\)", u(yes[0])) if yes else None
+    if not m0:
+        d.fail(lu, "blocked right-hand side changed")
+    rb = _solve_branch(d, yes, "projections_from_grid_functions_list(b, A.%s)" % m0.group(1))
+    m1 = _re.fullmatch(r"grid_function_list_from_coefficients\(sol, A\.(\w+)\)", rb)
+    if not m1:
         d.fail(yes[-1], "blocked result changed: " + rb)
+    lu_rhs, lu_res = m0.group(1), m1.group(1)
     rs = _solve_branch(d, no, "b.projections(A.dual_to_range)")
     if rs != "GridFunction(A.domain, coefficients=sol)":
         d.fail(no[-1], "single result changed: " + rs)
@@ -895,7 +901,30 @@ def solver_glue(ctx):
         if blocked:
             ws = ["A_op = A.strong_form()", "b_vec = coefficients_from_grid_functions_list(b)"]
             ww = ["A_op = A.weak_form()", "b_vec = projections_from_grid_functions_list(b, A.dual_to_range_spaces)"]
-            res = "res_fun = grid_function_list_from_coefficients(x.ravel(), A.domain_spaces)"
+            # which list of spaces cuts the solution vector: either named directly in the call, or a variable that every
+            # branch assigns from an attribute of A
+            import re as _re
+            calls = [t for t in txt if t.startswith("res_fun = grid_function_list_from_coefficients(x.ravel(), ")]
+            if len(calls) != 1:
+                it.fail(fn, "result construction changed in " + name)
+            arg = calls[0][len("res_fun = grid_function_list_from_coefficients(x.ravel(), "):-1]
+            m = _re.fullmatch(r"A\.(\w+)", arg)
+            if m:
+                out["blocked_result"] = (m.group(1), m.group(1))
+            elif _re.fullmatch(r"\w+", arg):
+                per = []
+                for branch in (strong, weak):
+                    hits = [_re.fullmatch(r"%s = A\.(\w+)" % arg, t) for t in branch]
+                    hits = [h for h in hits if h]
+                    if len(hits) != 1:
+                        it.fail(fn, "cannot tell which spaces cut the solution in " + name)
+                    per.append(hits[0].group(1))
+                out["blocked_result"] = tuple(per)
+                strong = [t for t in strong if not t.startswith(arg + " = ")]
+                weak = [t for t in weak if not t.startswith(arg + " = ")]
+            else:
+                it.fail(fn, "unrecognised space list in the result construction: " + arg)
+            res = calls[0]
         else:
             ws = ["A_op = A.strong_form()", "b_vec = b.coefficients"]
             ww = ["A_op = A.weak_form()", "b_vec = b.projections(A.dual_to_range)"]
@@ -921,6 +950,7 @@ def solver_glue(ctx):
         if tail != wt:
             it.fail(fn, "return tuple changed in " + name)
         out[name] = g
+    bres = out.pop("blocked_result")
     if out["_gmres_single_op_imp"] != out["cg"]:
         it.fail(it.functions["cg"], "cg and gmres guards differ")
     # ---- IterationCounter
@@ -960,11 +990,11 @@ def solver_glue(ctx):
              "From Coq Require Import List String.", "From BV Require Import Algebra.OpLang Algebra.SolverLang.",
              "Import ListNotations.", "Open Scope string_scope.", "",
              "Definition LU : lu_glue := {| lu_rhs_dual := Dual; lu_space := Dom; lu_mat := TWeak SL;",
-             '  lu_blocked_rhs := "dual_to_range_spaces"; lu_blocked_result := "domain_spaces"; lu_factor_of := TWeak SL |}.',
+             '  lu_blocked_rhs := "%s"; lu_blocked_result := "%s"; lu_factor_of := TWeak SL |}.' % (lu_rhs, lu_res),
              "Definition IT : it_glue := {| it_guard := %s; it_strong_op := TStrong SL; it_strong_rhs := TCoef SR;" % out["cg"],
              "  it_weak_op := TWeak SL; it_weak_rhs_dual := Dual; it_space := Dom; it_tol_kw := \"rtol\";",
              '  it_blocked_strong_rhs := "coefficients"; it_blocked_weak_rhs := "dual_to_range_spaces";',
-             '  it_blocked_result := "domain_spaces" |}.',
+             '  it_blocked_result_strong := "%s"; it_blocked_result_weak := "%s" |}.' % bres,
              "Definition IC : ic_glue := {| ic_incr := 1; ic_cg_res := ISub IRhs IOpX; ic_other_res := IX; ic_norm := true;",
              "  ic_else_pure := true |}.", ""]
     ctx.write_gen("SolverGlue.v", "\n".join(lines))
